@@ -45,6 +45,12 @@ Proved here (for every composition graph, every history, every injective renamin
   `wrap.Operator`s (mappers, apply-only / train-only / label builders, stateful or not), `>>` and two-branch fan-outs
   the composition graph (expanded in the model, `compOf`) is well-formed, hence binding holds for these pipelines
   with no hypothesis left, in all four modes, also under faults;
+* `C04_binding_handles`, `C04_handles_append_only` — binding for histories in which actions work through long-lived
+  handles (a kept `asset.Instance` addresses the generation its key resolved at first use; a kept serving runner the
+  states and hyper-parameters of the moment it was built), and no handle ever replaces a committed generation;
+  `C04_stale_listing_counterexample`: a `Release` memoising its listing does (seeded change C04-mb2);
+* `C04_params_current`, `C04_params_observed` — whatever the actor's own state handling, `SetState.set` leaves it with
+  the loaded state and the hyper-parameters of the current code; `C04_params_unrestored_counterexample` (C04-mb3);
 * `C04_binding_counterexample` — without well-formedness the statement is false: the witness is the composition of
   `m1 >> m2 >> PerfTrackScore` as forml built it *before* the repair fixes/C04-subscription-del.diff (the dangling
   head `Future`s of the pipeline's train/label segments died, `Subscription.__del__` un-registered the first
@@ -57,6 +63,7 @@ import ForML.Lemmas.C04Commit
 import ForML.Lemmas.C04Mech
 import ForML.Lemmas.C04Crash
 import ForML.Lemmas.C04ExprWf
+import ForML.Lemmas.C04Handles
 
 namespace ForML.Persist
 
@@ -588,6 +595,73 @@ example : outcomes (runFaulty chain2Case [] faultyWitness) =
            .trained 2 4 (some ⟨2, 0, 3, none⟩), .applied 2 4 (some ⟨2, 1, 4, some (2, 0)⟩)],
      some [.applied 1 5 (some ⟨1, 0, 3, none⟩), .applied 2 5 (some ⟨2, 0, 3, none⟩)],
      some [.applied 1 6 (some ⟨1, 9, 7, some (1, 0)⟩), .applied 2 6 (some ⟨2, 9, 7, some (2, 0)⟩)]] := by decide
+
+/-! ### long-lived handles -/
+
+/-- **Binding through long-lived handles.** On a well-formed case, for every history in which each action works
+through a fresh chain of objects or through one of any number of long-lived handles (an `asset.Instance` kept across
+actions, possibly together with its runners): every observation satisfies the property with respect to the generation
+the handle *addresses* — the key its instance resolved at its first use on a non-empty release (`Outcome.act.gen`),
+for a kept serving runner the generation and the hyper-parameters of the moment it was built. -/
+theorem C04_binding_handles (cs : Case) (hwf : cs.wf = true) (hist : List (Action × Fresh × Option Via))
+    (hfresh : ViaFreshOk hist) (vs : Views) :
+    ∀ out ∈ runHandles cs [] vs hist, ∀ obs, out.result = .ok obs → ∀ o ∈ obs, obsOk out.seen out.act o = true :=
+  fun out ho => (runHandles_ok cs hwf hist [] vs (RegInv.nil _) hfresh out ho).2
+
+/-- Whatever a handle has cached, an action through it only appends to the registry: a committed generation is never
+replaced (`Release.put` numbers the new generation from a fresh listing). -/
+theorem C04_handles_append_only (cs : Case) (reg : Registry) (v : HandleView) (keeps : Bool) (a : Action) :
+    ∃ l, (stepVia cs reg v keeps a).1 = reg ++ l :=
+  stepVia_prefix cs reg v keeps a
+
+/-- non-vacuity (and the behaviour of the real code, reproduced by the check): three trainings through one instance —
+the second one pins generation 1, so the third one re-trains from generation 1 again and commits generation 3; batch
+apply through the same handle still addresses generation 1, a fresh chain the latest one -/
+def viaA : Option Via := some ⟨1, false⟩
+
+def handleWitness : List (Action × Fresh × Option Via) :=
+  [(⟨.train, none, 0, 1⟩, idFresh, viaA), (⟨.train, none, 1, 2⟩, idFresh, viaA), (⟨.train, none, 2, 3⟩, idFresh, viaA),
+   (⟨.apply, none, 3, 4⟩, idFresh, viaA), (⟨.apply, none, 4, 5⟩, idFresh, none)]
+
+example : (runHandles chain2Case [] [] handleWitness).map (fun o => (o.act.gen, o.seen.length)) =
+    [(none, 0), (some 1, 1), (some 1, 2), (some 1, 3), (none, 3)] := by decide
+example : ((runHandles chain2Case [] [] handleWitness).map (fun o => o.result.toOption)).drop 2 =
+    [some [.trained 1 3 (some ⟨1, 0, 1, none⟩), .applied 1 3 (some ⟨1, 2, 3, some (1, 0)⟩),
+           .trained 2 3 (some ⟨2, 0, 1, none⟩), .applied 2 3 (some ⟨2, 2, 3, some (2, 0)⟩)],
+     some [.applied 1 4 (some ⟨1, 0, 1, none⟩), .applied 2 4 (some ⟨2, 0, 1, none⟩)],
+     some [.applied 1 5 (some ⟨1, 2, 3, some (1, 0)⟩), .applied 2 5 (some ⟨2, 2, 3, some (2, 0)⟩)]] := by decide
+
+/-- The seeded change C04-mb2 on the model: a `Release` object that memoises its first non-empty listing numbers every
+further generation from it — the third training through one handle replaces generation 2, which then holds the states
+of run 2 although run 1 committed it, and generation 3 never appears. -/
+theorem C04_stale_listing_counterexample :
+    trainStale chain2Case [] none [⟨.train, none, 0, 1⟩, ⟨.train, none, 1, 2⟩, ⟨.train, none, 2, 3⟩]
+      = [⟨0, [⟨1, 0, 1, none⟩, ⟨2, 0, 1, none⟩]⟩, ⟨2, [⟨1, 2, 3, some (1, 1)⟩, ⟨2, 2, 3, some (2, 1)⟩]⟩] := by decide
+
+/-! ### the hyper-parameters of the current code -/
+
+/-- **Current hyper-parameters.** Whatever the actor's state handling (`Flavour`: forml's default, an own codec
+whose snapshot carries the training-time hyper-parameters, a pickled `__dict__` installed as it is, a codec without
+hyper-parameters), after `SetState.set` the actor holds exactly the loaded state together with the hyper-parameters it
+was built with — those of the current code; an empty state leaves the actor as built. -/
+theorem C04_params_current (fl : Flavour) (a : ActorCfg) (s : Option Origin) :
+    (presetActor fl a s).hp = a.hp ∧ (presetActor fl a s).state = (match s with | some o => some o | none => a.state) := by
+  cases s with
+  | none => exact ⟨rfl, rfl⟩
+  | some o => cases fl <;> exact ⟨rfl, rfl⟩
+
+/-- what the model's observations say is therefore what the actor runs with: the hyper-parameter of the action -/
+theorem C04_params_observed (fl : Flavour) (hp : Nat) (s : Option Origin) (tag : Nat) :
+    Obs.applied tag (presetActor fl ⟨hp, none⟩ s).hp (presetActor fl ⟨hp, none⟩ s).state = Obs.applied tag hp s := by
+  cases s with
+  | none => rfl
+  | some o => cases fl <;> rfl
+
+/-- The seeded change C04-mb3 on the model: without saving and restoring the hyper-parameters around `set_state`, an
+actor whose snapshot carries them runs with those of the training-time code. -/
+theorem C04_params_unrestored_counterexample :
+    (presetActorUnrestored .ownCodec ⟨5, none⟩ (some ⟨1, 0, 3, none⟩)).hp = 3 ∧
+    (presetActorUnrestored .default ⟨5, none⟩ (some ⟨1, 0, 3, none⟩)).hp = 5 := by decide
 
 /-- ... and under faults: trainings that die at any micro-step of their commit, re-trainings of other processes
 committing between the loads of an action. -/
